@@ -12,7 +12,7 @@ import traceback
 from .core import Checker, Ob, Rule, finish
 from .model import AnalysisError
 
-RULE_MODULES = ["c19", "c08", "c09", "c11", "c12", "c13", "c05", "c16", "c10", "c15", "c20", "c18", "c17", "c03", "c07", "c14"]
+RULE_MODULES = ["generic", "c19", "c08", "c09", "c11", "c12", "c13", "c05", "c16", "c10", "c15", "c20", "c18", "c17", "c03", "c07", "c14"]
 
 
 def all_rules() -> list[Rule]:
